@@ -7,7 +7,7 @@ from . import world as W
 from . import simbus
 from . import refcodec as R
 from .refpeer import RefPeer
-from .netmodel import lengths_21, lengths_22, CLASSES, EPS_GRID, RESERVED_PF
+from .netmodel import lengths_21, lengths_22, CLASSES, EPS_GRID, RESERVED_PF, pdu1_format
 
 SA_S, SA_P = 0x30, 0x90
 
@@ -46,9 +46,9 @@ def peer_strategy(dll=None, roles=("orig", "resp"), modes=("rts", "rts", "bam"),
             if kind == "pdu2":
                 p["pf"], p["ps"] = draw(st.integers(240, 255)), draw(st.integers(0, 255))
             else:
-                p["pf"], p["ps"] = draw(st.integers(0, 239).filter(lambda x: x not in RESERVED_PF)), 255
+                p["pf"], p["ps"] = draw(pdu1_format(p["dp"])), 255
         else:
-            p["pf"], p["ps"] = draw(st.integers(0, 239).filter(lambda x: x not in RESERVED_PF)), None
+            p["pf"], p["ps"] = draw(pdu1_format(p["dp"])), None
         if intervals:
             if mode == "bam":
                 p["bam_dt"] = draw(st.sampled_from([None, None, 0.01, 0.02, 0.05, 0.075, 0.1, 0.15, 0.19]))
